@@ -48,7 +48,7 @@ def prefixes(tier, rnd):
     # single-character edits of valid tokens
     for base in ["[ref: 1]", "[ref: 4294967295]", "[ref: 0]", "[ref: 10]"]:
         for i in range(len(base) + 1):
-            for c in SIGMA + ["R", "-", "+", "_", "\t", " ", "2", "5"]:
+            for c in SIGMA + ["R", "-", "+", "_", "\t", " ", "2", "5", "\u00a0", "\u2003", "\u0085", "٠", "０", "E", "F"]:
                 yield ("edit-insert", base[:i] + c + base[i:] + " m", None)
             if i < len(base):
                 yield ("edit-delete", base[:i] + base[i + 1:] + " m", None)
